@@ -353,12 +353,6 @@ func normSpecPiece(s string) string {
 
 // outOfModelScope names the reason why an example is outside what Full.tla models, or "".
 func outOfModelScope(md string) string {
-	for _, m := range reCharRef.FindAllStringSubmatch(md, -1) {
-		name := m[1]
-		if name[0] != '#' && html.UnescapeString(m[0]) != m[0] && !fullEntityNames[name] {
-			return "entity name outside the model's table"
-		}
-	}
 	for i := 0; i < len(md); i++ {
 		if md[i] >= 0x80 {
 			return "non-ASCII text next to delimiter runs or in labels (Unicode classes and case folding are tables of Emphasis.tla / Refs.tla)"
@@ -366,9 +360,6 @@ func outOfModelScope(md string) string {
 	}
 	return ""
 }
-
-var fullEntityNames = map[string]bool{"amp": true, "lt": true, "gt": true, "quot": true, "copy": true, "xmap": true, "ap": true, "map": true, "malt": true,
-	"mp": true, "pm": true, "Gamma": true, "Gt": true, "lap": true, "lat": true, "ll": true}
 
 func cmdFullSpec(args []string) *Result {
 	res := newResult()
